@@ -178,6 +178,14 @@ fn gen_doc(ch: &mut Ch, out: &mut CaseOut) -> DigDoc {
     if ch.chance(1, 10) {
         if let Some(Element::Pin(p)) = elements.iter().find(|e| matches!(e, Element::Pin(p) if p.label.is_some())).cloned() {
             out.class("duplicate-pin-label");
+            let mut p = p;
+            // half of the duplicates are of the other direction (an Out pin labelled like an
+            // input, an In pin labelled like an output)
+            if ch.chance(1, 2) {
+                out.class("duplicate-pin-label-other-direction");
+                p.kind = if matches!(p.kind, PinKind::Out) { PinKind::In } else { PinKind::Out };
+                p.default = None;
+            }
             elements.push(Element::Pin(p));
         }
     }
@@ -362,7 +370,7 @@ impl Property for C16 {
         "C16"
     }
     fn rule(&self) -> &'static str {
-        "profile `dig`: generated circuit descriptions - pins (In/Clock/Out, labelled or not, Bits or none, InDefault value / z=\"true\" / none), labelled non-pin elements (Probe, And, Tunnel, Text, ...), 0-3 tests (label or none, duplicate labels, XML-special characters; source = generated program fitted to the pins with random layout, or free text behind a legal header, or headers naming nothing / X_out with no X / <output>_out, or no header line) - rendered in Digital's XStream shape with shuffled attribute entries and XML escaping; label patterns around _out (an Out pin, or an In / Clock pin, labelled C_out next to In pin C); duplicate pin labels; pins and tests labelled like the format's own attribute keys (Bits, InDefault, Label, Testdata, ...); plus 1-3 corruptions (character / line / tag deletion, truncation, renamed keys, emptied text nodes, junk) of rendered documents and of the repository's five fixtures. Oracle: never a panic; uncorrupted documents with legal headers must load; when an uncorrupted document loads, signals == exactly the labelled pins as a multiset (kind, width, default), bidirectional only under the stated condition, tests == (label, source) in document order; for every loaded file load_test(i) == parse(source i) + with_signals(file.signals) (equal TestCase, or same error kind and message), load_test_by_name == load_test(first index with that label), out-of-range index and unknown name are errors. Non-trivial: >= 3 labelled pins and >= 1 test, or an _out pattern, or a corruption that still loads; distinct by document text."
+        "profile `dig`: generated circuit descriptions - pins (In/Clock/Out, labelled or not, Bits or none, InDefault value / z=\"true\" / none), labelled non-pin elements (Probe, And, Tunnel, Text, ...), 0-3 tests (label or none, duplicate labels, XML-special characters; source = generated program fitted to the pins with random layout, or free text behind a legal header, or headers naming nothing / X_out with no X / <output>_out, or no header line) - rendered in Digital's XStream shape with shuffled attribute entries and XML escaping; label patterns around _out (an Out pin, or an In / Clock pin, labelled C_out next to In pin C); duplicate pin labels (of the same or of the other direction); pins and tests labelled like the format's own attribute keys (Bits, InDefault, Label, Testdata, ...); plus 1-3 corruptions (character / line / tag deletion, truncation, renamed keys, emptied text nodes, junk) of rendered documents and of the repository's five fixtures. Oracle: never a panic; uncorrupted documents with legal headers must load (also with repeated pin labels: then the signals are still the labelled pins, and of the pins sharing a label that a header uses as `<label>_out` exactly one input has become bidirectional); when an uncorrupted document loads, signals == exactly the labelled pins as a multiset (kind, width, default), bidirectional only under the stated condition, tests == (label, source) in document order; for every loaded file load_test(i) == parse(source i) + with_signals(file.signals) (equal TestCase, or same error kind and message), load_test_by_name == load_test(first index with that label), out-of-range index and unknown name are errors. Non-trivial: >= 3 labelled pins and >= 1 test, or an _out pattern, or a corruption that still loads; distinct by document text."
     }
     fn cases(&self, tier: Tier) -> u64 {
         match tier {
@@ -374,7 +382,7 @@ impl Property for C16 {
         [500, 60, 40]
     }
     fn required_classes(&self) -> Vec<&'static str> {
-        vec!["uncorrupted", "corrupted-generated", "corrupted-fixture", "load:ok", "load:err", "bidirectional-inferred", "pin-labelled-x_out-next-to-input-x", "input-pin-labelled-x_out-next-to-input-x", "pin-labelled-like-an-attribute-key", "header-names-outside-the-circuit", "corruption-still-loads", "strict-document", "duplicate-test-label"]
+        vec!["uncorrupted", "corrupted-generated", "corrupted-fixture", "load:ok", "load:err", "bidirectional-inferred", "pin-labelled-x_out-next-to-input-x", "input-pin-labelled-x_out-next-to-input-x", "pin-labelled-like-an-attribute-key", "duplicate-pin-label-other-direction", "repeated-labels-checked", "header-names-outside-the-circuit", "corruption-still-loads", "strict-document", "duplicate-test-label"]
     }
     fn check_raw(&self, _kind: &str, data: &[u8]) -> Option<(String, String)> {
         crate::fuzzglue::dig_bytes_kv(data)
@@ -447,8 +455,11 @@ impl Property for C16 {
             return out;
         }
         let Some(file) = file else {
-            if strict {
-                out.fail("c16:valid-document-rejected", "an uncorrupted document with distinct pin labels and legal test headers did not load");
+            if legal {
+                out.fail(
+                    "c16:valid-document-rejected",
+                    format!("an uncorrupted document with legal test headers ({} pin labels) did not load", if distinct { "distinct" } else { "some repeated" }),
+                );
             }
             return out;
         };
@@ -467,6 +478,53 @@ impl Property for C16 {
                 );
                 return out;
             }
+        }
+        if !distinct && legal {
+            // repeated labels: still exactly the labelled pins; of the pins sharing a label that a
+            // header uses as `<label>_out`, exactly one - an input - has become bidirectional
+            let collapse = |s: &Sig| (s.name.clone(), s.bits, match s.kind {
+                Kind::Out => "out".to_string(),
+                Kind::In(d) | Kind::Bidir(d) => format!("in:{d:?}"),
+            });
+            let pins: Vec<Sig> = {
+                // (expected_signals without the inference: recompute from a document without tests)
+                let mut d2 = doc.clone();
+                d2.elements.retain(|e| !matches!(e, Element::Test(_)));
+                d2.expected_signals()
+            };
+            let got: Vec<Sig> = file.signals.iter().filter_map(sig_of).collect();
+            let mut a: Vec<_> = pins.iter().map(collapse).collect();
+            let mut b: Vec<_> = got.iter().map(collapse).collect();
+            a.sort();
+            b.sort();
+            if a != b || got.len() != file.signals.len() {
+                out.fail("c16:signals-differ", format!("loaded signals [{}]\n should be the labelled pins [{}] (one input per inferred name bidirectional)", describe_sigs(&got), describe_sigs(&pins)));
+                return out;
+            }
+            let mut inferred: Vec<String> = vec![];
+            for t in &tests {
+                if let Some(h) = DigDoc::header_of(&t.source) {
+                    for name in h {
+                        if let Some(stem) = name.strip_suffix("_out") {
+                            if !pins.iter().any(|s| s.name == name) && pins.iter().any(|s| s.name == stem && matches!(s.kind, Kind::In(_))) && !inferred.iter().any(|x| x == stem) {
+                                inferred.push(stem.to_string());
+                            }
+                        }
+                    }
+                }
+            }
+            let mut names: Vec<&String> = got.iter().map(|s| &s.name).collect();
+            names.sort();
+            names.dedup();
+            for n in names {
+                let nb = got.iter().filter(|s| s.name == *n && matches!(s.kind, Kind::Bidir(_))).count();
+                let want = if inferred.contains(n) { 1 } else { 0 };
+                if nb != want {
+                    out.fail("c16:signals-differ", format!("{nb} signals called {n} are bidirectional, should be {want}; loaded [{}]", describe_sigs(&got)));
+                    return out;
+                }
+            }
+            out.class("repeated-labels-checked");
         }
         // tests: label and source verbatim, in document order
         if file.test_cases.len() != tests.len() {
